@@ -1,24 +1,40 @@
 #!/bin/sh
-# usage: lib/seed_matrix.sh [ids...]  -- for every kept seeded change: apply it to /repo, run its demo and the quick check of the
-# property it breaks, record which obligations report it, revert.  Writes seeded/MATRIX.md.  /repo must be clean.
-cd /repo || exit 3
-if ! git diff --quiet; then echo "repo dirty"; exit 3; fi
+# usage: [JOBS=4] lib/seed_matrix.sh [ids...]  -- for every kept seeded change: make a scratch copy of /repo's working tree under /tmp, apply the
+# change there, run its demo and the quick check of the property it breaks against that copy (MYGRAD_REPO), record which obligations report it,
+# remove the copy.  Evidence/replays of these runs go to the scratch directory (VERIF_OUT), never to /verif/evidence.  Writes seeded/MATRIX.md.
+JOBS=${JOBS:-4}
 IDS=${@:-$(ls /verif/seeded | grep '^C')}
 OUT=/verif/seeded/MATRIX.md
 ROWS=/verif/seeded/.rows
 mkdir -p $ROWS
-for id in $IDS; do
+one() {
+  id=$1
   d=/verif/seeded/$id
-  prop=$(python3 -c "import json;print(json.load(open('$d/meta.json'))['breaks_property'])")
-  cd /repo && git apply $d/patch.diff || { echo "$id: patch does not apply"; continue; }
-  PYTHONPATH=/repo/src /venv/bin/python $d/demo.py > /dev/null 2>&1; drc=$?
-  cd /verif && bin/check $prop --tier quick > /tmp/matrix_$id.txt 2>&1; rc=$?
-  cd /repo && git checkout -- .
-  nv=$(grep -c '^VIOLATION' /tmp/matrix_$id.txt)
-  obl=$(grep '^VIOLATION' /tmp/matrix_$id.txt | sed 's/.*obligation=//; s/ no-failing-input-found/ (no input)/' | sed 's/\[[^]]*\]/[..]/g; s/\.p[0-9]*\( \|$\)/\1/' | sort | uniq -c | sort -rn | head -6 | awk '{c=$1; $1=""; printf "%s (%s); ", substr($0,2), c}')
-  echo "| $id | $prop | $([ $drc -ne 0 ] && echo yes || echo NO) | $rc | $nv | $obl |" > $ROWS/$id
+  w=/tmp/mx_$id
+  rm -rf $w; mkdir -p $w/repo $w/out
+  prop=$(python3 -c "import json;print(json.load(open('$d/meta.json'))['breaks_property'])" 2>/dev/null)
+  (cd /repo && git ls-files -z | xargs -0 cp --parents -t $w/repo 2>/dev/null)
+  if ! (cd $w/repo && patch -p1 -s < $d/patch.diff > $w/patch.log 2>&1); then echo "$id: patch does not apply"; rm -rf $w; return; fi
+  PYTHONPATH=$w/repo/src /venv/bin/python $d/demo.py > /dev/null 2>&1; drc=$?
+  (cd /verif && MYGRAD_REPO=$w/repo VERIF_OUT=$w/out bin/check $prop --tier quick > $w/check.txt 2>&1); rc=$?
+  nv=$(grep -c '^VIOLATION' $w/check.txt)
+  BND='obligation=C[0-9][0-9]\.\(bounded\|ops\|layers\|histories\|step\|rest\)\.'
+  nb=$(grep '^VIOLATION' $w/check.txt | grep -c "$BND")
+  nd=$((nv-nb))
+  fmt() { sed 's/.*obligation=//; s/ no-failing-input-found/ (no input)/' | sed 's/\[[^]]*\]/[..]/g; s/\.p[0-9]*\( \|$\)/\1/' | sort | uniq -c | sort -rn | head -4 | awk '{c=$1; $1=""; printf "%s (%s); ", substr($0,2), c}'; }
+  dobl=$(grep '^VIOLATION' $w/check.txt | grep -v "$BND" | fmt)
+  bobl=$(grep '^VIOLATION' $w/check.txt | grep "$BND" | fmt)
+  echo "| $id | $prop | $([ $drc -ne 0 ] && echo yes || echo NO) | $rc | $nd | $dobl | $nb | $bobl |" > $ROWS/$id
   echo "$id prop=$prop demo_rc=$drc check_rc=$rc viol=$nv"
+  rm -rf $w
+}
+n=0
+for id in $IDS; do
+  one $id &
+  n=$((n+1))
+  if [ $n -ge $JOBS ]; then wait; n=0; fi
 done
-echo "| seeded change | property | demo fails | check exit | VIOLATION lines | obligations reporting it (count) |" > $OUT
-echo "|---|---|---|---|---|---|" >> $OUT
+wait
+echo "| seeded change | property | demo fails | check exit | deductive VIOLATION lines | deductive obligations reporting it (count; top 4) | bounded VIOLATION lines | bounded obligations reporting it (count; top 4) |" > $OUT
+echo "|---|---|---|---|---|---|---|---|" >> $OUT
 for id in $(ls /verif/seeded | grep '^C'); do [ -f $ROWS/$id ] && cat $ROWS/$id >> $OUT; done
